@@ -15,7 +15,12 @@ Every clause is recomputed from the raw vertex / face lists with plain numpy:
              planar mesh equals the scalar Laplacian (library's and mine)
  harmonic    n_smooth = 0 with constrained elements: field == normalised dense solve of L_II z_I = - L_IB z_B (my L)
  invariance  bordered surfaces: same directions (measured against a fixed geometric edge of each element) after a random
-             vertex renumbering + rotation of every face's start vertex
+             vertex renumbering + rotation of every face's start vertex (1e-6; 5e-3 when the smoothing weight is the library's
+             own eigenvalue estimate, which it only computes to 1e-3)
+
+A case = one configuration (mesh family member + parameters + options + seed) x one of the checks above, so that a known
+failure of one clause does not hide the other clauses of the same configuration.
+Request field 'collect': true (debugging aid) reports every failing case in 'all_failures' instead of stopping at the first.
 """
 import os
 for _k in ('OMP_NUM_THREADS', 'OPENBLAS_NUM_THREADS', 'MKL_NUM_THREADS'):      # many tiny dense problems: threads only add overhead
@@ -50,7 +55,6 @@ CHECKS = ('run', 'unit', 'constraint', 'singular', 'laplacian', 'harmonic', 'inv
 
 # ----------------------------------------------------------------------------------------------- mesh family
 def tri_grid(nu, nv, pos, alt=True, wrap_u=False, wrap_v=False):
-    mu, mv = (nu if wrap_u else nu), (nv if wrap_v else nv)
     V = [list(map(float, pos(i, j))) for i in range(nu) for j in range(nv)]
     F = []
     for i in range(nu if wrap_u else nu - 1):
@@ -621,7 +625,7 @@ def chk_constraint(r):
                 terms.append(cmath.rect(1, n * t[(v, w)]))
         # exact cancellations between edges are resolved by edge order in the library: not decidable, skip
         partial = [abs(sum(terms[:k])) for k in range(1, len(terms) + 1)]
-        amb = any(abs(a + b) < 1e-6 for i_, a in enumerate(terms) for b in terms[i_ + 1:]) or min(partial) < 1e-6
+        amb = any(abs(a + b) < 1e-6 for i_, a in enumerate(terms) for b in terms[i_ + 1:]) or min(partial) < 1e-6 or abs(sum(terms)) < 1e-6
         S = sum(terms)
         if not amb:
             exp = S / abs(S)
@@ -680,10 +684,6 @@ def chk_singular(r):
     return None
 
 
-def planar_flat_ok(r):
-    return r.planar
-
-
 def chk_laplacian(r):
     g, n, cot = r.geo, r.n, r.cfg['cotan']
     flat = r.cfg['conn'] == 'flat'
@@ -702,7 +702,7 @@ def chk_laplacian(r):
         return '%s(connection, order=%d) is not Hermitian: L[%d,%d]=%r, L[%d,%d]=%r' % (what, n, i, j, complex(Llib[i, j]), j, i, complex(Llib[j, i]))
     if not r.faces:
         # (a) with the library's transport angles and my weights / assembly
-        Lmine = r.my_vertex_lap(None if False else r.lib_vertex_transport())
+        Lmine = r.my_vertex_lap(r.lib_vertex_transport())
     if not degen:
         d = np.abs(Llib - Lmine).max() / scale
         if d > 1e-9:
@@ -962,7 +962,7 @@ def main():
     seed = int(req.get('seed', 0) or 0)
     thorough = req.get('tier') == 'thorough'
     known = [strip_err(k) for k in (req.get('known') or [])]
-    budget = Budget(270 if thorough else 52)
+    budget = Budget(270 if thorough else 50)
     if mode == 'replay':
         case = strip_err(req['case'])
         cfg = {k: v for k, v in case.items() if k != 'check'}
@@ -1025,8 +1025,8 @@ def main():
         if not live:
             break
         slot += 1
-    if collect:
-        respond(failing=collect[0], cases=n, known_hit=known_hit, note=note, all_failures=collect)
+    if collect is not None:
+        respond(failing=collect[0] if collect else None, cases=n, known_hit=known_hit, note=note, all_failures=collect)
     respond(failing=None, cases=n, known_hit=known_hit, note=note)
 
 
